@@ -49,7 +49,7 @@ func run(c *vk.Ctx) {
 		return
 	}
 	defer limited.Close()
-	sem.RunCases(c, base, "mem", c.Pick(120, 1500), gen.Options{}, 4, 12, func(i int, r *rand.Rand, p *sem.Prepared, contextual []*openfgav1.TupleKey) {
+	sem.RunCases(c, base, "mem", c.Pick(120, 1500), gen.Options{WideEvery: 4, AlgebraEvery: 5}, 4, 12, func(i int, r *rand.Rand, p *sem.Prepared, contextual []*openfgav1.TupleKey) {
 		oneCase(c, i, r, p, contextual, base, limited)
 	})
 }
@@ -58,7 +58,10 @@ func oneCase(c *vk.Ctx, i int, r *rand.Rand, p *sem.Prepared, contextual []*open
 	_, ctxs, nodes := sem.RequestSpace(r, p, 0, 2)
 	all := p.AllTuples(contextual)
 	type filter struct{ t, rel string }
-	filters := []filter{{"user", ""}, {"group", ""}}
+	filters := []filter{{"user", ""}}
+	if _, ok := p.Ref.Types["group"]; ok {
+		filters = append(filters, filter{"group", ""})
+	}
 	for _, t := range p.Ref.TypeNames() {
 		for _, rel := range p.Ref.RelationNames(t) {
 			filters = append(filters, filter{t, rel})
@@ -69,7 +72,7 @@ func oneCase(c *vk.Ctx, i int, r *rand.Rand, p *sem.Prepared, contextual []*open
 		for _, n := range nodes {
 			extra = append(extra, n[0])
 		}
-		for _, id := range gen.UserIDs {
+		for _, id := range p.Case.IDsOf("user") {
 			extra = append(extra, "user:"+id)
 		}
 		rc := ref.NewCase(p.Ref, all, rctx, extra...)
